@@ -76,7 +76,7 @@ def check(F, rep):
     f = get_fn(F, rep, HS + "KeyMaterialClientAuth::verify")
     pv = find_calls(f, PKV)
     ex = find_calls(f, "iroh_relay::ExportKeyingMaterial::export_keying_material", regex=r"ExportKeyingMaterial::export_keying_material$")
-    eq = [(b, t) for b, t in find_calls(f, "core::cmp::PartialEq::eq")]
+    eq = [(b, t) for b, t in find_calls(f, "core::cmp::PartialEq::eq", "core::cmp::PartialEq::ne")]
     rep.exact("verify-shape", "PublicKey::verify calls in KeyMaterialClientAuth::verify", len(pv), 1)
     rep.exact("verify-shape", "export_keying_material calls", len(ex), 1)
     rep.floor("verify-shape", "suffix equality test", len(eq), 1)
@@ -93,7 +93,11 @@ def check(F, rep):
             if any(fld == "key_material_suffix" for _, fld in fr) and any(du.derives_from_call(op_base(a), regex=r"export_keying_material$") for a in t["args"]):
                 eqs.append((b, t))
         rep.exact("verify-shape", "suffix==self.key_material_suffix comparisons", len(eqs), 1)
-        ts_eq = tests_of_calls(f, eqs, family="bool")
+        ts_eq = []
+        for eb, et_ in eqs:
+            for x in tests_of_calls(f, [(eb, et_)], family="bool"):
+                # `a != b`: equality holds on the false edge
+                ts_eq.append(Test(x.bb, x.failure, x.success, x.level, x.family, not x.neg, x.local) if callee_names(et_)[0].endswith("::ne") else x)
         for b, i, rv in returns_of(f):
             if i is not None and rv["k"] == "agg" and rv.get("variant") == "Err":
                 continue
